@@ -366,14 +366,64 @@ func Store(a, i, v Term) Term {
 	return t
 }
 
+// constArrDecls: constant arrays whose element is not a builtin value (cvc5
+// only accepts values in "as const") are declared symbols with an axiom.
+var constArrDecls = map[string]string{}
+var constArrAxioms = map[string]string{}
+
 func ConstArray(so *Sort, v Term) Term {
-	t := Term{"((as const " + so.String() + ") " + v.S + ")", so}
-	constArrays[t.S] = v
+	builtin := v.Sort.K == KInt || v.Sort.K == KBool
+	if _, lit := isIntLit(v); v.Sort.K == KInt && !lit && !strings.HasPrefix(v.S, "(- ") {
+		builtin = false
+	}
+	if v.Sort.K == KArray {
+		if _, ok := constArrays[v.S]; ok && strings.HasPrefix(v.S, "((as const") {
+			builtin = true
+		}
+	}
+	if builtin {
+		t := Term{"((as const " + so.String() + ") " + v.S + ")", so}
+		constArrays[t.S] = v
+		return t
+	}
+	name := "|carr:" + strings.ReplaceAll(so.String(), "|", "!") + ":" + strings.ReplaceAll(v.S, "|", "!") + "|"
+	if _, ok := constArrDecls[name]; !ok {
+		constArrDecls[name] = fmt.Sprintf("(declare-fun %s () %s)\n", name, so)
+		constArrAxioms[name] = fmt.Sprintf("(assert (forall ((i!c %s)) (! (= (select %s i!c) %s) :pattern ((select %s i!c)))))\n", so.Key, name, v.S, name)
+	}
+	t := Term{name, so}
+	constArrays[name] = v
 	return t
 }
 
 func Forall(vars []Term, body Term) Term { return quant("forall", vars, body) }
 func Exists(vars []Term, body Term) Term { return quant("exists", vars, body) }
+
+// ForallPat: universally quantified formula with explicit instantiation
+// patterns (one multi-pattern per entry of pats).
+func ForallPat(vars []Term, pats [][]Term, body Term) Term {
+	if len(vars) == 0 || body.S == "true" {
+		return body
+	}
+	var sb strings.Builder
+	sb.WriteString("(forall (")
+	for _, v := range vars {
+		sb.WriteString("(" + v.S + " " + v.Sort.String() + ")")
+	}
+	sb.WriteString(") (! " + body.S)
+	for _, p := range pats {
+		sb.WriteString(" :pattern (")
+		for i, t := range p {
+			if i > 0 {
+				sb.WriteString(" ")
+			}
+			sb.WriteString(t.S)
+		}
+		sb.WriteString(")")
+	}
+	sb.WriteString("))")
+	return Term{sb.String(), SBool}
+}
 
 func quant(q string, vars []Term, body Term) Term {
 	if len(vars) == 0 {
@@ -656,12 +706,48 @@ func (c *Ctx) Closure(texts ...string) string {
 	for _, l := range ls {
 		sb.WriteString(f64LitDecl(l))
 	}
+	// constant arrays over non-builtin element sorts (after literals, which
+	// their axioms may mention); collect transitively
+	carr := map[string]bool{}
+	var collectC func(text string)
+	collectC = func(text string) {
+		for _, t := range symbolsIn(text) {
+			if strings.HasPrefix(t, "|carr:") && !carr[t] {
+				carr[t] = true
+			}
+		}
+	}
+	for _, t := range texts {
+		collectC(t)
+	}
+	for n := range need {
+		collectC(c.syms[n].Text)
+	}
+	var cs []string
+	for k := range carr {
+		cs = append(cs, k)
+	}
+	sort.Strings(cs)
+	var carrText, carrDecl strings.Builder
+	for _, k := range cs {
+		carrDecl.WriteString(constArrDecls[k])
+		carrText.WriteString(constArrAxioms[k])
+	}
+	// literals mentioned only inside constant-array axioms
+	for _, t := range symbolsIn(carrText.String()) {
+		if strings.HasPrefix(t, "|f64:") && !lits[t] {
+			lits[t] = true
+			sb.WriteString(f64LitDecl(t))
+		}
+	}
+	sb.WriteString(carrDecl.String())
 	for _, n := range c.order {
 		if need[n] {
 			sb.WriteString(c.syms[n].Text)
 			sb.WriteByte('\n')
 		}
 	}
+	sb.WriteString(carrText.String())
 	var axs []string
 	for _, ax := range c.axioms {
 		if need[ax.Name] {
